@@ -326,6 +326,9 @@ def nat_witness(w):
             return dict(value=v, holds=abs(v - 1) <= 1e-3)
         O = _texture(w["texture"], w["n"], w["seed"])
         m = float(D.misorientation_index(O, s))
+        if w["what"] == "emptyhist":
+            empty = bool(np.isnan(m) and np.all(np.isnan(st.misorientation_hist(O, s)[0])))
+            return dict(value="nan" if empty else m, holds=not np.isnan(m))
         if w["what"] == "uniform":
             return dict(value=m, holds=m <= 0.12)
         if w["what"] == "single":
